@@ -109,6 +109,9 @@ def emit_p(ir, ind):
     raise AssertionError(ir)
 
 
+_REINDENT = [False]
+
+
 def emit_m(ir, ind):
     """do-sequence lines"""
     sp = " " * ind
@@ -117,7 +120,17 @@ def emit_m(ir, ind):
     if isinstance(ir, Let): return [sp + "let %s := %s" % (ir.pat, ir.term)] + emit_m(ir.body, ind)
     if isinstance(ir, Bind):
         if isinstance(ir.m, MCall):
-            head = [sp + "let %s ← %s" % (ir.pat, ir.m.term)]
+            term = ir.m.term
+            if "\n" in term and _REINDENT[0]:
+                # (b0809, additive; only for units that ask for it with `"reindent_closures": true`, so that the text
+                # of the other generated files does not change) a closure rendered earlier at a fixed indentation: its continuation lines must stay to
+                # the right of this `let` (Lean ends the enclosing `do`/`match` arm at a line that starts further left)
+                ls = term.split("\n")
+                low = min((len(l) - len(l.lstrip(" ")) for l in ls[1:] if l.strip()), default=ind + 1)
+                if low <= ind:
+                    ls = ls[:1] + [(" " * (ind + 2 - low)) + l if l.strip() else l for l in ls[1:]]
+                    term = "\n".join(ls)
+            head = [sp + "let %s ← %s" % (ir.pat, term)]
         elif not monadic(ir.m):
             head = [sp + "let %s := %s" % (ir.pat, inline(ir.m))]
         else:
@@ -444,11 +457,15 @@ class Unit:
         return info
 
     def try_fn(self, impl, name):
+        keep = _REINDENT[0]
+        _REINDENT[0] = bool(getattr(self, "reindent_closures", False))     # closures are rendered while translating
         try:
             return self.get_fn(impl, name)
         except RsError as e:
             self.failed.setdefault((impl, name), str(e))
             return None
+        finally:
+            _REINDENT[0] = keep
 
     # ---- emission
     def emit(self):
@@ -1788,7 +1805,10 @@ class FnTranslator:
         fn = "(fun %s %s => do\n%s)" % (tup, xp, "\n".join(emit_m(bir, 8)))
         if ctx.get("ret"):
             r, v = self.fresh("lr"), self.fresh("rv")
-            rt = self.u.lt(self.out_type(), False)
+            # the result type is printed when the function is emitted (like `LazyTy`): a structure it mentions can still
+            # gain type parameters while the rest of the body is translated (b0809, approver.rs `MemoApprover`)
+            late = self.u.__dict__.setdefault("late_types", {})
+            rt = "⟦late%d⟧" % len(late); late[rt] = self.out_type()
             pre.append(("bind", r, MCall("Rs.loopM (ρ := %s) %s %s %s" % (rt, lst, tup, fn))))
             return self.wrap(pre, Match(r, [(".inl %s" % tup, cont(env)), (".inr %s" % v, self.ret_value(v))]))
         pre.append(("bind", tup, MCall("Rs.loopB %s %s %s" % (lst, tup, fn))))
@@ -2004,6 +2024,11 @@ class FnTranslator:
             self.check_ty(nt, ("int", "usize"), "array length")
             return "(List.replicate %s %s)" % (n, x), ("vec", xt)
         if k == "range":
+            if e[1] is not None and e[2] is not None and not e[3]:
+                # (b0809, additive) `(a..b)` as the source of an iterator chain (`(0..n).map(|i| …).collect()`): the same
+                # list `Rs.range a b` a `for i in a..b` runs over
+                term, el = self.iter_expr(e, env, pre)
+                return term, ("iter", el)
             raise RsError("range expression outside a for loop or an index")
         if k == "index":
             base, bt = self.expr(e[1], env, pre, None)
@@ -3171,8 +3196,13 @@ def fn_lean_lines(info):
     L.append("-/")
     if info.monadic:
         L.append("def %s%s : Rs.M %s := do" % (info.lean_name, sig, rt))
-        L += emit_m(info.ir, 2)
+        _REINDENT[0] = bool(getattr(u, "reindent_closures", False))
+        try: L += emit_m(info.ir, 2)
+        finally: _REINDENT[0] = False
     else:
         L.append("def %s%s : %s :=" % (info.lean_name, sig, rt))
         L += emit_p(info.ir, 2)
+    late = getattr(u, "late_types", None)
+    if late:
+        L = [re.sub(r"⟦late\d+⟧", lambda m: u.lt(late[m.group(0)], False), l) if "⟦late" in l else l for l in L]
     return L
